@@ -86,12 +86,16 @@ static inline ss_i64 ss_repeat_map (int mode, ss_i64 c, ss_i64 size)
 #define SS_BILIN_W7(x)               (SS_FRAC ((ss_i64) (x) - SS_HALF) >> 9)          /* 7 most significant bits of the 16-bit fraction */
 /* channel ch (0 = blue .. 3 = alpha) of an a8r8g8b8 word */
 #define SS_CH(p, ch)                 ((ss_i64) (((p) >> (8 * (ch))) & 0xff))
-/* blend of one channel; wx, wy are the 7-bit weights */
+/* blend of one channel: sum of neighbour * weight, the weight of a neighbour being the product of its 1-D weights
+ * (dx = 2*wx of 256 for the right column, 256 - dx for the left one; same for rows), truncated to 8 bits.
+ * wx, wy are the 7-bit weights (0..127), channel values 0..255: every term is < 2^24 and the sum < 2^26, so 32-bit
+ * unsigned arithmetic is exact. */
+#define SS_BILIN_DX(w)               ((unsigned) (w) << 1)
 #define SS_BILIN_CH(tl, tr, bl, br, wx, wy)                                                    \
-    (((ss_i64) (tl) * (256 - 2 * (ss_i64) (wx)) * (256 - 2 * (ss_i64) (wy)) +                  \
-      (ss_i64) (tr) * (2 * (ss_i64) (wx)) * (256 - 2 * (ss_i64) (wy)) +                        \
-      (ss_i64) (bl) * (256 - 2 * (ss_i64) (wx)) * (2 * (ss_i64) (wy)) +                        \
-      (ss_i64) (br) * (2 * (ss_i64) (wx)) * (2 * (ss_i64) (wy))) >> 16)
+    ((ss_i64) (((unsigned) (tl) * ((256u - SS_BILIN_DX (wx)) * (256u - SS_BILIN_DX (wy))) +    \
+                (unsigned) (tr) * (SS_BILIN_DX (wx) * (256u - SS_BILIN_DX (wy))) +             \
+                (unsigned) (bl) * ((256u - SS_BILIN_DX (wx)) * SS_BILIN_DX (wy)) +             \
+                (unsigned) (br) * (SS_BILIN_DX (wx) * SS_BILIN_DX (wy))) >> 16))
 
 /* ---- CONVOLUTION ---- */
 /* first tap for a kernel of `n` (integer) taps: floor (x - (n-1)/2 - e); (n-1)*65536/2 is exact */
